@@ -75,7 +75,19 @@ def scan_set_iteration():
                         return True
                     return isinstance(e, (ast.Set, ast.SetComp)) or \
                         (isinstance(e, ast.Call) and isinstance(e.func, ast.Name) and e.func.id in ('set', 'frozenset'))
+                # iteration whose result cannot depend on the order: a set comprehension, or a generator / list
+                # comprehension consumed directly by an order-insensitive reducer (membership tests, any / all / set ...)
+                order_free = set()
                 for node in ast.walk(func):
+                    if isinstance(node, ast.SetComp):
+                        order_free.update(id(g) for g in node.generators)
+                    if isinstance(node, ast.Call) and isinstance(node.func, ast.Name) and \
+                            node.func.id in ('any', 'all', 'set', 'frozenset', 'len', 'sum') and node.args and \
+                            isinstance(node.args[0], (ast.GeneratorExp, ast.ListComp)):
+                        order_free.update(id(g) for g in node.args[0].generators)
+                for node in ast.walk(func):
+                    if isinstance(node, ast.comprehension) and id(node) in order_free:
+                        continue
                     if isinstance(node, (ast.For, ast.comprehension)) and is_setexpr(node.iter):
                         sites.add((rel, func.name))
                     if isinstance(node, ast.Call):
@@ -84,6 +96,10 @@ def scan_set_iteration():
                             sites.add((rel, func.name))
                         if isinstance(f, ast.Name) and f.id in ('list', 'tuple', 'enumerate', 'next', 'iter') and node.args \
                                 and is_setexpr(node.args[0]):
+                            sites.add((rel, func.name))
+                        # sorted(<set>, key=...) is stable: elements with equal keys keep the set's iteration order
+                        if isinstance(f, ast.Name) and f.id in ('sorted', 'min', 'max') and node.args and is_setexpr(node.args[0]) \
+                                and any(k.arg == 'key' for k in node.keywords):
                             sites.add((rel, func.name))
     return sites
 
